@@ -9,6 +9,8 @@ ROOT = os.path.dirname(os.path.dirname(os.path.abspath(__file__)))
 rows = []
 for d in sorted(glob.glob(os.path.join(ROOT, "seeded", "*"))):
     seed = os.path.basename(d)
+    if not os.path.exists(os.path.join(d, "patch.diff")):
+        continue
     meta_p = os.path.join(d, "meta.json")
     meta = json.load(open(meta_p)) if os.path.exists(meta_p) else {}
     evals = []
